@@ -18,6 +18,14 @@ DIRECTED = [
 ]
 
 
+_CC = dict(AtomicRD='TRUE', LeakFix='TRUE', BadReplies='TRUE', Calls='{c1, c2}', Inb='{h1}', Closers='{k1}')
+_HH = dict(AtomicRD='TRUE', LeakFix='TRUE', BadReplies='FALSE', Calls='{c1}', Inb='{h1, h2}', Closers='{k1}')
+_CH = dict(AtomicRD='TRUE', LeakFix='TRUE', BadReplies='FALSE', Calls='{c1}', Inb='{h1}', Closers='{k1}')
+GOALS = {'GoalTwoCallsCloseOneReply': _CC, 'GoalTwoHandlersCloseOneDone': _HH, 'GoalCloseThenConnDown': _CH,
+         'GoalReplyDuringClose': _CH, 'GoalHandlerReplyDuringClose': _CH, 'GoalInboundWhileClosing': _CH,
+         'GoalConnDownTwoPending': _CC, 'GoalBadReplyOtherPending': _CC, 'GoalBufferedFrameAfterClose': _HH}
+
+
 def _write_cfg(path, consts, check):
     with open(path, 'w') as f:
         f.write('SPECIFICATION GSpec\nCONSTANTS\n')
@@ -27,6 +35,26 @@ def _write_cfg(path, consts, check):
 
 
 def directed_scenarios(wd):
+    """TLC-derived directed behaviours; cached under out/cache by the hash of the spec sources."""
+    import hashlib, glob
+    h = hashlib.sha1()
+    for f in sorted(glob.glob(os.path.join(vlib.SPEC, 'Session*.tla'))) + [__file__]:
+        h.update(open(f, 'rb').read())
+    cache = os.path.join(vlib.OUT, 'cache', 'sess_directed_%s.json' % h.hexdigest()[:16])
+    if os.path.exists(cache):
+        try:
+            return json.load(open(cache))
+        except Exception:
+            pass
+    out = _directed_scenarios(wd)
+    os.makedirs(os.path.dirname(cache), exist_ok=True)
+    tmp = cache + '.%d' % os.getpid()
+    json.dump(out, open(tmp, 'w'))
+    os.replace(tmp, cache)
+    return out
+
+
+def _directed_scenarios(wd):
     out = []
     for name, consts, check in DIRECTED:
         cfg = 'SessionGen_dir_%s.cfg' % name
@@ -36,6 +64,21 @@ def directed_scenarios(wd):
         if hist is None:
             raise Broken('directed scenario %s: TLC found no counterexample on the unrepaired design (model changed?)' % name)
         out.append({'id': 'dir_' + name, 'mode': 'strict', 'steps': hist, 'directed': name})
+    # coverage goals: shortest behaviours reaching the named situations
+    from concurrent.futures import ThreadPoolExecutor
+    def one(goal):
+        cfg = 'SessionGen_goal_%s.cfg' % goal
+        gwd = os.path.join(wd, 'g_' + goal)
+        os.makedirs(gwd, exist_ok=True)
+        _write_cfg(os.path.join(gwd, cfg), GOALS[goal], 'INVARIANT Not%s' % goal)
+        viol, hist, r = vlib.counterexample('SessionGen', cfg, workdir=gwd, workers=3, timeout=600)
+        if hist is None:
+            raise Broken('coverage goal %s is unreachable in the model' % goal)
+        return goal, hist
+    with ThreadPoolExecutor(max_workers=5) as ex:
+        for goal, hist in ex.map(one, GOALS):
+            out.append({'id': 'goal_' + goal, 'mode': 'strict', 'steps': hist, 'directed': goal})
+            out.append({'id': 'goalfree_' + goal, 'mode': 'free', 'steps': hist, 'directed': goal})
     return out
 
 
@@ -91,7 +134,9 @@ def run(prop, tier, verdict):
     scen = []
     for i, h in enumerate(hists):
         scen.append({'id': 'sim%d_%d' % (seedv, i), 'mode': 'strict', 'steps': h})
-    for i, h in enumerate(hists):
+    nfree = 2500 if tier == 'thorough' else 300
+    fhists, _ = vlib.sim_behaviours('SessionGen', 'SessionGen_sim.cfg', nfree, 80, seedv + 7919, workdir=wd)
+    for i, h in enumerate(hists + fhists):
         scen.append({'id': 'free%d_%d' % (seedv, i), 'mode': 'free', 'steps': h})
     directed = directed_scenarios(wd)
     scen = directed + scen
@@ -121,11 +166,10 @@ def run(prop, tier, verdict):
         raise Broken('driver ran %d of %d scenarios' % (len(summ), len(scen)))
     strict = [s for s in summ if s['mode'] == 'strict' and not s['id'].startswith('dir_')]
     drift = [s for s in strict if s['drift']]
-    log('[sess] replayed %d scenarios (%d strict, %d free, %d directed) in %.0fs; drift in %d strict replays' % (len(scen), len(strict), len(hists), len(directed), wall, len(drift)))
+    log('[sess] replayed %d scenarios (%d strict, %d free, %d directed) in %.0fs; drift in %d strict replays' % (len(scen), len(strict), len(hists) + len(fhists), len(directed), wall, len(drift)))
     for s in drift[:3]:
         log('  DRIFT %s: %s' % (s['id'], s['drift'][:2]))
-    if len(drift) * 2 > len(strict):
-        raise Broken('more than half of the strict replays drifted: the model no longer describes the code')
+    drift_majority = len(drift) * 2 > len(strict)
     # 4. trace validation against Layer P
     acc, rej, _ = vlib.validate_traces('PSession', 'PSession.cfg', trfile, workdir=wd, env={'VERIF_PROP': prop}, max_reject=12)
     by_id = {s['id']: s for s in scen}
@@ -138,6 +182,8 @@ def run(prop, tier, verdict):
         sig = '%s:%s' % (prop, classify(rj, lines_by_t.get(rj['t'], [])))
         verdict.report(sig, {'rejected_event': rj['line'], 'previous_event': rj['prev']},
                        {'engine': 'sess', 'scenario': by_id.get(rj['t']), 'seed': seedv, 'trace': [json.loads(x) for x in lines_by_t.get(rj['t'], [])][-60:]})
+    if drift_majority and not rej:
+        raise Broken('more than half of the strict replays drifted and Layer P accepted every trace: the model no longer describes the code')
     nontrivial = set()
     for s in scen:
         acts = [x[0] for x in s['steps']]
@@ -148,7 +194,7 @@ def run(prop, tier, verdict):
         'evaluations': len(scen),
         'distinct_nontrivial': len(nontrivial),
         'rule': 'scenarios = TLC -simulate behaviours of SessionGen (seeded), each replayed strictly (hold points, projection compared after every step) and free-running with jitter, plus TLC counterexamples of the unrepaired design; non-trivial = contains a connection loss, a Close or a hostile reply; distinct by action sequence',
-        'strict_replays': len(strict), 'strict_drift': len(drift), 'free_runs': len(hists), 'directed': [d['directed'] for d in directed],
+        'strict_replays': len(strict), 'strict_drift': len(drift), 'free_runs': len(hists) + len(fhists), 'directed': [d['directed'] for d in directed],
         'rejected': len(rej), 'accepted': acc,
         'samples': [{'id': scen[len(directed)]['id'], 'steps': [x[:2] for x in scen[len(directed)]['steps']][:40]},
                     {'id': directed[0]['id'], 'steps': [x[:2] for x in directed[0]['steps']]}],
